@@ -111,12 +111,18 @@ def optimal_attains_maximum(score):
 # smallest relative row separation a double-precision score can still resolve reliably:
 # euclidean sees the difference itself, cos/multiply see it squared (1 - d^2/2)
 SEP = {'euclidean': 1e-10, 'cos': 1e-6, 'multiply': 1e-6}
+# the same for single precision inputs (eps 6e-8: squared separation must stay well above it)
+SEP32 = {'euclidean': 1e-5, 'cos': 3e-2, 'multiply': 3e-2}
+
+
+def _sep(reference, metric):
+    return (SEP32 if np.asarray(reference).dtype == np.float32 else SEP)[metric]
 
 
 def _row_separation(ref, metric):
     """min distance between (normalised) class rows of any bin"""
     K = ref.shape[0]
-    r = ref.reshape(K, ref.shape[1], -1)
+    r = np.asarray(ref, dtype=np.float64).reshape(K, ref.shape[1], -1)
     if metric == 'cos':
         r = pyref.vec_norm(r)
     d = np.inf
@@ -130,7 +136,7 @@ def _row_separation(ref, metric):
 @oracle
 def oracle_undoes_permutation(reference, perm, metric, algorithm):
     K, F = perm.shape
-    if K > 1 and _row_separation(reference, metric) < SEP[metric]:
+    if K > 1 and _row_separation(reference, metric) < _sep(reference, metric):
         return Skip('rows closer than the float resolution margin (outside "pairwise distinct" with margin)')
     if metric == 'cos' and np.any(np.linalg.norm(reference.reshape(K, F, -1), axis=-1) == 0):
         return Skip('zero row has no direction')
@@ -150,7 +156,7 @@ def oracle_resolves_global_permutation(reference, perm1, metric, algorithm):
     """frequency and time flattened: (K, F, T) -> (K, F*T), one global permutation"""
     K, F, T = reference.shape
     flat_ref = reference.reshape(K, F * T)
-    if K > 1 and _row_separation(flat_ref[:, None, :], metric) < SEP[metric]:
+    if K > 1 and _row_separation(flat_ref[:, None, :], metric) < _sep(reference, metric):
         return Skip('rows closer than the float resolution margin')
     if metric == 'cos' and np.any(np.linalg.norm(flat_ref, axis=-1) == 0):
         return Skip('zero row has no direction')
@@ -202,11 +208,13 @@ def search(ctx):
         F = gen.odd(rng, 1, 15)
         T = int(rng.integers(2, 12))
         kind = rng.choice(['uniform', 'normalised', 'integer-distinct', 'sparse', 'near-duplicate-rows'])
+        metric, algo = str(rng.choice(METRICS)), str(rng.choice(ALGOS))
         near = None
         if kind == 'near-duplicate-rows' and K >= 2:
             # two classes that differ only slightly (but resolvably); the injected field exchanges exactly them
             ref = rng.random((K, F, T)) + 0.1
-            delta = 10.0 ** rng.uniform(-5.5, -3)
+            # the euclidean score sees the difference itself: resolvable down to ~1e-10 relative
+            delta = 10.0 ** (rng.uniform(-9.5, -3) if metric == 'euclidean' else rng.uniform(-5.5, -3))
             a, b = rng.choice(K, 2, replace=False)
             ref[b] = ref[a] * (1 + delta * rng.choice([-1.0, 1.0], size=(F, T)))
             near = (int(a), int(b))
@@ -220,12 +228,22 @@ def search(ctx):
         else:
             ref = rng.random((K, F, T)) * (rng.random((K, F, T)) < 0.4)
         ctx.count('search-ref-' + str(kind))
+        if rng.random() < 0.4:
+            # unnormalised masks (power-like levels, per class) and single precision inputs
+            single = near is None and rng.random() < 0.5
+            L = 10.0 ** (rng.uniform(-3, 5) if single else rng.uniform(-3, 9))
+            lv = [np.ones(K), np.arange(1, K + 1), np.arange(K, 0, -1), rng.uniform(0.5, 2, K)][int(rng.integers(4))]
+            if near is not None:
+                lv = np.ones(K)
+            ref = ref * (L * lv)[:, None, None]
+            if single:
+                ref = ref.astype(np.float32)
+            ctx.count(f'search-ref-level-{"float32" if single else "float64"}-1e{int(np.floor(np.log10(L)))}')
         perm = gen.random_perm_field(rng, K, F)
         if near is not None:
             perm = np.repeat(np.arange(K)[:, None], F, 1)
             swap = rng.random(F) < 0.7
             perm[near[0], swap], perm[near[1], swap] = near[1], near[0]
-        metric, algo = str(rng.choice(METRICS)), str(rng.choice(ALGOS))
         ok = ctx.run(oracle_undoes_permutation, reference=ref, perm=perm, metric=metric, algorithm=algo)
         if i == 0:
             ctx.sample({'oracle': 'oracle_undoes_permutation', 'K': K, 'F': F, 'T': T, 'metric': metric,
